@@ -551,6 +551,28 @@ func c08ClientType(c *core.Ctx, nt *types.Named, fam []*ssa.Function) {
 					if l.Class == core.ErrNil {
 						okMore = false
 					}
+					// `if s.err == nil { s.err = <error> }; return s.err`: the field read at the return is known
+					// non-nil only if every path from the probe stores a non-nil error into it or tested it non-nil
+					if base, fld, isF := core.FieldOf(l.V); isF && l.Class != core.ErrNonNil {
+						sameField := func(v ssa.Value) bool {
+							b2, f2, ok := core.FieldOf(v)
+							return ok && f2 == fld && core.NamedOf(b2.Type()) == core.NamedOf(base.Type())
+						}
+						reach := core.Walk(core.After(pr.instr), func(in ssa.Instruction) bool {
+							st, ok := in.(*ssa.Store)
+							return ok && sameField(st.Addr) && core.ClassifyErr(st.Val, st) == core.ErrNonNil
+						}, func(b *ssa.BasicBlock, si int) bool {
+							iff, ok := b.Instrs[len(b.Instrs)-1].(*ssa.If)
+							if !ok {
+								return true
+							}
+							fct := core.CondFact(iff.Cond, si == 0)
+							return !(fct.Op == token.NEQ && core.IsNilConst(fct.Y) && sameField(fct.X))
+						})
+						if reach[r] {
+							okMore = false
+						}
+					}
 				}
 			}
 		}
@@ -842,6 +864,32 @@ func c08ServerProbe(c *core.Ctx, nt *types.Named) {
 		}
 	}
 	c.Check(!bad, tk+".RecvMsg:second-request-is-error", second.Pos(), "after the probe only 'err == io.EOF' leads to success; anything else returns a non-nil error", "a second request message (or a read error) after the first does not lead to an error")
+	// ... and no success leaves RecvMsg between the first read and the probe on a single-request method: a
+	// return that may be nil, reachable from the first preface read without executing the probe and without
+	// taking an edge on which the flag says "streaming", accepts a request without looking for a second one
+	isFlag := func(v ssa.Value) bool {
+		base, ff, ok := core.FieldOf(v)
+		return ok && ff == flag && core.NamedOf(base.Type()) == tn
+	}
+	early := core.Walk(core.After(first), func(in ssa.Instruction) bool { return in == ssa.Instruction(second) }, func(b *ssa.BasicBlock, si int) bool {
+		iff, ok := b.Instrs[len(b.Instrs)-1].(*ssa.If)
+		if !ok {
+			return true
+		}
+		fct := core.CondFact(iff.Cond, si == 0)
+		return !(fct.Op == token.ILLEGAL && !fct.Neg && isFlag(fct.X))
+	})
+	var skip *ssa.Return
+	for _, r := range core.Returns(fn) {
+		if early[r] && core.ClassifyErr(r.Results[0], r) != core.ErrNonNil && skip == nil {
+			skip = r
+		}
+	}
+	pos := second.Pos()
+	if skip != nil {
+		pos = skip.Pos()
+	}
+	c.Check(skip == nil, tk+".RecvMsg:no-success-before-probe", pos, "on a single-request method every exit that may report success lies behind the second-request probe", "on a single-request method this exit can report success without the second-request probe having run (e.g. a fast path for an empty message): a second request message goes unnoticed")
 	// later calls return io.EOF before reading
 	okLater := false
 	for _, r := range core.Returns(fn) {
